@@ -160,7 +160,7 @@ PROPS = {
                      "Sqlize.C05.load_keeps_inv", "Sqlize.C05.rename_onto_existing_breaks", "Sqlize.readScript_inv", "Sqlize.fromString_inv", "Sqlize.C05.names_and_positions", "Sqlize.C05.names_positions_types", "Sqlize.C05.names_positions_types_options", "Sqlize.ReaderMysql.step_rel", "Sqlize.ReaderMysql.fidelity",
                      "Sqlize.C05.indexes_and_foreign_keys", "Sqlize.ReaderMysql.step_elems", "Sqlize.Table.removeColumn_raw",
                      "Sqlize.C05.primary_key_table_level", "Sqlize.ReaderMysql.step_pk", "Sqlize.pkOf_strip",
-                     "Sqlize.C05.postgres_fragment", "Sqlize.ReaderPg.step_rel", "Sqlize.ReaderPg.exec_bare", "Sqlize.Table.addColumn_merge_pg"],
+                     "Sqlize.C05.reader_dispatch_as_modelled", "Sqlize.C05.postgres_fragment", "Sqlize.ReaderPg.step_rel", "Sqlize.ReaderPg.exec_bare", "Sqlize.Table.addColumn_merge_pg"],
         "suites": [{"name": "script"}],
         "corr_points": ["load", "state", "dump"],
         "rule": SCRIPT_RULE,
@@ -175,7 +175,8 @@ PROPS = {
                        "DROP COLUMN, ALTER COLUMN TYPE, ALTER COLUMN DROP NOT NULL on unquoted names: tables, column names, positions, types); "
                        "every load (3 reader models, any split into calls) keeps slices and position maps consistent "
                        "(Sqlize.C05.load_keeps_inv, side condition: renames onto fresh names); split invariance of the reader model (state incl. cursor and pending position) and the rejection "
-                       "clause (by definition + regenerated fact that every Parser* function parses before it edits). The fidelity clause "
+                       "clause (by definition + regenerated fact that every Parser* function parses before it edits); the readers' dispatch tables (statement kind -> model edits, "
+                       "re-extracted from the three reader files on every run) are the ones the reader models were written from (reader_dispatch_as_modelled). The fidelity clause "
                        "(Sqlize.C05.Statement_partial) is decided by correspondence on white-box state + dump, and by the executable predicate "
                        "(dump -> grammar -> reference engine = independent reading of the script) on every case.",
     },
